@@ -6,7 +6,8 @@
 #include "fiber_context.h"
 
 /* built three times: assembly switch + malloc stacks (the configuration of every other harness),
- * assembly switch + mmap stacks (C19_VARIANT 1), ucontext back-end + malloc stacks (C19_VARIANT 2) */
+ * assembly switch + mmap stacks (C19_VARIANT 1), ucontext back-end + malloc stacks (C19_VARIANT 2),
+ * assembly switch + gcc split stacks (C19_VARIANT 3, this file and fiber_context.c compiled with -fsplit-stack) */
 #ifndef C19_VARIANT
 #define C19_VARIANT 0
 #endif
@@ -16,51 +17,81 @@ const char* const H_NAME = "c19_ctx_mmap";
 #elif C19_VARIANT == 2
 const char* const H_NAME = "c19_ctx_uctx";
 #define BLOCKS_PER_CTX 2 /* ucontext_t + stack */
+#elif C19_VARIANT == 3
+const char* const H_NAME = "c19_ctx_split";
+#define BLOCKS_PER_CTX 0 /* split stacks: segments are mappings made by libgcc */
 #else
 const char* const H_NAME = "c19_ctx";
 #define BLOCKS_PER_CTX 1
 #endif
 const char* const H_PROPERTY = "C19";
 
-#if C19_VARIANT == 1
-/* ledger of stack mappings: every mmap made while contexts are created must be unmapped exactly once */
+#if C19_VARIANT == 1 || C19_VARIANT == 3
+/* ledger of stack mappings: every mapping made while contexts are created must be unmapped exactly once
+ * (mmap variant: the library's own mmap/munmap calls; split variant: libgcc maps its stack segments with
+ * syscall(SYS_mmap) and releases them with syscall(SYS_munmap)) */
 #include <sys/mman.h>
-#define MAXMAP 32
+#include <sys/syscall.h>
+#define MAXMAP 64
 static struct {
-  void* p;
+  char* p;
   size_t n;
   int live;
 } maps[MAXMAP];
-static int nmaps, map_tracking;
-void* __real_mmap(void*, size_t, int, int, int, off_t);
-int __real_munmap(void*, size_t);
-NS void* __wrap_mmap(void* a, size_t n, int pr, int fl, int fd, off_t off) {
-  void* p = __real_mmap(a, n, pr, fl, fd, off);
+static int nmaps, map_tracking, maps_at_init;
+#if C19_VARIANT == 3
+#define NSS NS __attribute__((no_split_stack)) /* called by libgcc while it switches segments */
+#else
+#define NSS NS
+#endif
+static NSS void note_map(void* p, size_t n) {
   if (map_tracking && p != MAP_FAILED && nmaps < MAXMAP) {
     maps[nmaps].p = p;
     maps[nmaps].n = n;
     maps[nmaps].live = 1;
     nmaps++;
   }
+}
+static NSS void note_unmap(void* p_, size_t n) {
+  char* p = p_;
+  for (int i = 0; i < nmaps; i++)
+    if (p < maps[i].p + maps[i].n && maps[i].p < p + n) {
+      if (!maps[i].live) sim_violation("C19-stack-released-twice", "stack mapping %p unmapped twice", (void*)maps[i].p);
+      if (C19_VARIANT == 1 && (maps[i].p != p || maps[i].n != n))
+        sim_violation("C19-stack-partial-release", "stack mapping %p of %zu bytes unmapped as %p with length %zu", (void*)maps[i].p, maps[i].n, p_, n);
+      maps[i].live = 0;
+    }
+}
+#if C19_VARIANT == 1
+void* __real_mmap(void*, size_t, int, int, int, off_t);
+int __real_munmap(void*, size_t);
+NS void* __wrap_mmap(void* a, size_t n, int pr, int fl, int fd, off_t off) {
+  void* p = __real_mmap(a, n, pr, fl, fd, off);
+  note_map(p, n);
   return p;
 }
 NS int __wrap_munmap(void* p, size_t n) {
-  for (int i = 0; i < nmaps; i++)
-    if (maps[i].p == p) {
-      if (!maps[i].live) sim_violation("C19-stack-released-twice", "stack mapping %p unmapped twice", p);
-      if (maps[i].n != n) sim_violation("C19-stack-partial-release", "stack mapping %p of %zu bytes unmapped with length %zu", p, maps[i].n, n);
-      maps[i].live = 0;
-    }
+  note_unmap(p, n);
   return __real_munmap(p, n);
 }
+#else
+long __real_syscall(long, long, long, long, long, long, long);
+NSS long __wrap_syscall(long nr, long a, long b, long c, long d, long e, long f) {
+  if (nr == SYS_munmap) note_unmap((void*)a, (size_t)b);
+  long r = __real_syscall(nr, a, b, c, d, e, f);
+  if (nr == SYS_mmap) note_map((void*)r, (size_t)b);
+  return r;
+}
+#endif
 static NS int live_maps(void) {
   int c = 0;
   for (int i = 0; i < nmaps; i++) c += maps[i].live;
   return c;
 }
-static NS int stack_live(void* st) {
+static NS int stack_live(void* st_) {
+  char* st = st_;
   for (int i = 0; i < nmaps; i++)
-    if (maps[i].p == st) return maps[i].live;
+    if (st >= maps[i].p && st < maps[i].p + maps[i].n) return maps[i].live;
   return 0;
 }
 #define STACK_LIVE(st) stack_live(st)
@@ -109,6 +140,36 @@ static NS void g_switched(void) {
   switches_done++;
   sim_progress();
 }
+#if C19_VARIANT == 3
+/* split stacks: the switch happens some frames down, each frame about 6 KB (libgcc makes first segments of about 48 KB),
+ * so that contexts are saved and resumed while they run in a segment added after their creation, and the
+ * frames (and the segments libgcc gave back or kept meanwhile) are walked back up after the resume */
+static int dive_depth[MAXSTEPS];
+static int max_depth_reached;
+static __attribute__((noinline)) int after_resume(int me_, int n) {
+  volatile unsigned char pad[1100];
+  for (unsigned i = 0; i < sizeof pad; i += 32) pad[i] = (unsigned char)(me_ + n + i);
+  int r = n > 0 ? after_resume(me_, n - 1) : 0;
+  for (unsigned i = 0; i < sizeof pad; i += 32) r += pad[i] != (unsigned char)(me_ + n + i);
+  if (r) sim_violation("C19-stack-contents", "context %d: a frame of a call made after the resume was overwritten", me_);
+  return r;
+}
+static __attribute__((noinline)) void dive(int me_, fiber_context_t* self, fiber_context_t* to, int depth) {
+  volatile unsigned char pad[6000];
+  const unsigned char pat = (unsigned char)(0x31 * (me_ + 1) + 7 * depth);
+  for (unsigned i = 0; i < sizeof pad; i += 64) pad[i] = pat;
+  pad[sizeof pad - 1] = pat;
+  if (depth > max_depth_reached) max_depth_reached = depth;
+  if (depth > 0) dive(me_, self, to, depth - 1);
+  else {
+    RS2(fiber_context_swap, self, to);
+    after_resume(me_, 2); /* calls made right after the resume: the prologues consult the restored stack limit */
+  }
+  for (unsigned i = 0; i < sizeof pad; i += 64)
+    if (pad[i] != pat) sim_violation("C19-stack-contents", "context %d resumed with a corrupted frame %d levels above the switch (byte %u is %#x, expected %#x)", me_, depth, i, pad[i], pat);
+  if (pad[sizeof pad - 1] != pat) sim_violation("C19-stack-contents", "context %d resumed with a corrupted frame %d levels above the switch", me_, depth);
+}
+#endif
 static void walk(int me_, fiber_context_t* self) {
   /* locals live on this context's stack and must survive every switch */
   volatile uint64_t tag = 0xC0DE0000u + (unsigned)me_;
@@ -119,6 +180,10 @@ static void walk(int me_, fiber_context_t* self) {
     if (to == self) return; /* a driving thread got control back */
     visits++;
     uint64_t v0 = visits;
+#if C19_VARIANT == 3
+    if (me_ >= 0) dive(me_, self, to, dive_depth[(g_step + me_) % MAXSTEPS]);
+    else
+#endif
     RS2(fiber_context_swap, self, to);
     g_switched();
     if (tag != 0xC0DE0000u + (unsigned)me_ || visits != v0)
@@ -147,11 +212,24 @@ void h_run(void) {
   nsteps = wl_int(2, sim_tier_thorough() ? MAXSTEPS : 24);
   static const size_t sizes[] = {8192, 8200, 12345, 16384, 65536, 102400, 1 << 20, 8192 + 8};
   for (int i = 0; i < nctx; i++) stack_size[i] = sizes[wl_pick(8)];
+#if C19_VARIANT == 3
+  {
+    static const size_t small[] = {4096, 5000, 8192, 8200, 12345, 16384};
+    for (int i = 0; i < nctx; i++)
+      if (wl_pct(75)) stack_size[i] = small[wl_pick(6)];
+  }
+#endif
   for (int s = 0; s < nsteps; s++) script[s] = wl_pick(nctx);
   int cross = wl_pct(50);
   phase_end[0] = cross ? wl_int(1, nsteps) : nsteps;
   phase_end[1] = cross ? wl_int(phase_end[0], nsteps) : nsteps;
   phase_end[2] = nsteps;
+#if C19_VARIANT == 3
+  {
+    const int deep = wl_int(0, 24);
+    for (int s = 0; s < MAXSTEPS; s++) dive_depth[s] = wl_pct(60) ? wl_int(0, deep) : 0;
+  }
+#endif
   int fault_mode = wl_pick(4); /* 0 none, 1 fail a context stack, 2 fail inside fiber_create_no_sched, 3 both */
   sim_describe("contexts=%d steps=%d cross_thread=%d (phases end at %d,%d) alloc_faults=%d preempt=1/%d", nctx, nsteps, cross, phase_end[0], phase_end[1], fault_mode, c.preempt_inv);
   if (nctx >= 3 || cross) sim_nontrivial();
@@ -161,12 +239,12 @@ void h_run(void) {
     fiber_context_t tmp;
     memset(&tmp, 0, sizeof tmp);
     sim_alloc_fail_at(1 + (C19_VARIANT == 2 ? wl_pick(2) : 0)); /* ucontext back-end: fail the ucontext_t or the stack */
-    int r = C19_VARIANT == 1 ? FIBER_ERROR : fiber_context_init(&tmp, 16384, ctx_entry_tramp, NULL);
+    int r = (C19_VARIANT == 1 || C19_VARIANT == 3) ? FIBER_ERROR : fiber_context_init(&tmp, 16384, ctx_entry_tramp, NULL);
     sim_alloc_fail_at(0);
     if (r != FIBER_ERROR) sim_violation("C19-alloc-failure-ignored", "fiber_context_init succeeded although its stack allocation failed");
     if (sim_live_blocks() != live0) sim_violation("C19-alloc-failure-leak", "a failed fiber_context_init left %ld blocks allocated", (long)(sim_live_blocks() - live0));
   }
-  if (fault_mode & 2) {
+  if ((fault_mode & 2) && C19_VARIANT != 3) { /* (the split variant links fiber.o built for another context layout) */
     for (int k = 1; k <= 2 + BLOCKS_PER_CTX; k++) { /* fiber, list node, then what the context itself allocates on the heap */
       sim_alloc_fail_at(k);
       fiber_t* f = fiber_create_no_sched(16384, ctx_entry_tramp, NULL);
@@ -176,7 +254,7 @@ void h_run(void) {
     }
   }
   const size_t live1 = sim_live_blocks();
-#if C19_VARIANT == 1
+#if C19_VARIANT == 1 || C19_VARIANT == 3
   map_tracking = 1;
 #endif
   /* the caller's storage holds arbitrary bytes before fiber_context_init (the API does not ask for zeroed memory) */
@@ -195,8 +273,9 @@ void h_run(void) {
     }
   }
   if (sim_live_blocks() != live1 + (size_t)nctx * BLOCKS_PER_CTX) sim_violation("C19-stack-ledger", "%d contexts created but %ld blocks allocated", nctx, (long)(sim_live_blocks() - live1));
-#if C19_VARIANT == 1
-  map_tracking = 0;
+#if C19_VARIANT == 1 || C19_VARIANT == 3
+  map_tracking = C19_VARIANT == 3; /* split stacks: segments added while the contexts run are stack mappings too */
+  maps_at_init = nmaps;
   if (live_maps() != nctx) sim_violation("C19-stack-ledger", "%d contexts created but %d stack mappings exist", nctx, live_maps());
 #endif
   fiber_context_init_from_thread(&thr_ctx[0]);
@@ -216,6 +295,12 @@ void h_run(void) {
     sim_violation("C19-stack-ledger", "destroying %d contexts released %ld blocks", nctx, (long)(live2 - sim_live_blocks()));
   for (int i = 0; i < nctx; i++)
     if (!STACK_GONE(ctx[i].ctx_stack)) sim_violation("C19-stack-not-released", "stack of context %d still allocated after fiber_context_destroy", i);
+#if C19_VARIANT == 3
+  map_tracking = 0;
+  if (live_maps()) sim_violation("C19-stack-not-released", "%d of the %d stack segments mapped for the contexts are still mapped after every context was destroyed", live_maps(), nmaps);
+  sim_probe("dive_depth_max", max_depth_reached);
+  sim_probe("stack_segments_added", nmaps - maps_at_init);
+#endif
   sim_probe("switches", switches_done);
   sim_finish_ok();
 }
